@@ -677,8 +677,11 @@ class Zeroconf(QuietLogger):
         """Set global done and remove all service listeners."""
         if self.done:
             return
-        self.remove_all_service_listeners()
+        # Stop sending before waiting for the browser threads: a listener that is
+        # busy keeps them alive for a while, and a registration that completes
+        # in the meantime would be announced after the goodbye packets went out
         self.done = True
+        self.remove_all_service_listeners()
 
     def _shutdown_threads(self) -> None:
         """Shutdown any threads."""
